@@ -5,6 +5,7 @@ import (
 	"encoding/binary"
 	"errors"
 	"fmt"
+	"io"
 	"log"
 	"net"
 	"net/http"
@@ -239,6 +240,17 @@ func (zns *ZnPMServer) readNamedPipe(pipe *pipe) {
 		var pid int
 		// read packet
 		if err := ReadDataFromNamedPipe(pipeReader, buf); err != nil {
+			if errors.Is(err, io.EOF) {
+				// every process holding the write end has exited (e.g. the only worker timed out
+				// or crashed): that is not a failure of the master. Wait for the next worker to
+				// open the pipe - the replacement is already on its way - instead of giving up.
+				pipeReader.Close()
+				if pipeReader, err = OpenNamedPipeReader(pipe); err != nil {
+					log.Fatal("[PARENT] Open named pipe file error:", err)
+					return
+				}
+				continue
+			}
 			log.Fatalf("[PARENT] read buffer failed: %s", err)
 			continue
 		}
